@@ -7,7 +7,8 @@
 //!   zdec b|c <n>   (hcobs_dec, right after `params`)  the canonical encoding of `n` zero bytes,
 //!                  built analytically (header bytes written at their offsets in a zero buffer):
 //!                  its first byte in one `decode` call, ALL the rest in one more call, then
-//!                  `finish`; ends the run.
+//!                  `finish`; ends the run.  `zdec b|c <n> <cut>`: the first `cut` bytes in the
+//!                  first call instead (call boundary before / inside / after a chosen header).
 //!
 //! Nothing here flattens or copies a piece: the input is a calloc-backed `vec![0u8; n]` (virtual
 //! memory until touched; the encoder only reads it, the decoder borrows it) and the outputs are
@@ -401,10 +402,17 @@ pub fn zenc(enc: RealEnc, l: Limits, bufs: &mut BufStore, m: &str, n: usize) -> 
 // zdec
 
 /// `zdec <m> <n>` on a fresh decoder.
-pub fn zdec(dec: RealDec, l: Limits, bufs: &mut BufStore, m: &str, n: usize) -> StepOut {
+///
+/// `cut` = how many bytes of the wire go into the first call (1 unless the op line says otherwise:
+/// `zdec <m> <n> <cut>` puts the call boundary before / inside / after a chosen size header).
+pub fn zdec(dec: RealDec, l: Limits, bufs: &mut BufStore, m: &str, n: usize, cut: usize) -> StepOut {
     let mut so = StepOut::default();
     so.tags.push(format!("zdec_{}_{}", m, size_class(n)));
+    if cut != 1 {
+        so.tags.push("zdec_cut_chosen".into());
+    }
     let wire = bufs.keep(zero_wire(l, n));
+    let cut = cut.min(wire.len());
     // the analytic wire is what the format says (and, when small, what the real encoder produces)
     let walked = walk_encoding(&[wire]);
     so.violations.extend(check_encoding(l, n, &walked, "analytic wire (harness)"));
@@ -417,10 +425,11 @@ pub fn zdec(dec: RealDec, l: Limits, bufs: &mut BufStore, m: &str, n: usize) -> 
     }
     let call = if m == "b" { "decode" } else { "decode_copy" };
     let what = format!(
-        "one {} call on a slice of {} bytes (a valid encoding of {} zero bytes minus its first byte, which was fed before)",
+        "one {} call on a slice of {} bytes (a valid encoding of {} zero bytes minus its first {} byte(s), which were fed before)",
         call,
-        wire.len() - 1,
-        n
+        wire.len() - cut,
+        n,
+        cut
     );
     let expiry = vec![
         format!("C07 decoder did not return within its time budget from {}", what),
@@ -430,8 +439,8 @@ pub fn zdec(dec: RealDec, l: Limits, bufs: &mut BufStore, m: &str, n: usize) -> 
     let mut dec = std::mem::ManuallyDrop::new(dec);
     let res = watched(expiry, || {
         catch_unwind(AssertUnwindSafe(move || {
-            dec.feed(m, &wire[..1])?;
-            dec.feed(m, &wire[1..])?;
+            dec.feed(m, &wire[..cut])?;
+            dec.feed(m, &wire[cut..])?;
             Ok::<_, FeedErr>(std::mem::ManuallyDrop::into_inner(dec).finish())
         }))
     });
